@@ -371,7 +371,10 @@ def check_dst(ctx, F, crate, kind, a, row, inst, v, lab):
                         if alias.get(pn, pn) != f["name"]:
                             bad.append("field `%s` <- parameter `%s`" % (f["name"], pn))
                     elif src[0] == "c":
-                        pass   # constants (entry size / version of the legacy memory map) are checked by value below
+                        # constants: only the two fields of the legacy memory map the constructor has no parameter for (their values are
+                        # checked below); a constant in a field that a parameter is named after drops that argument
+                        if not (a["name"] == "MemoryMapTag" and f["name"] in ("entry_size", "entry_version")):
+                            bad.append("field `%s` <- constant %s (no parameter reaches it)" % (f["name"], G.show(src)[:30]))
                     else:
                         bad.append("field `%s` <- %s" % (f["name"], G.show(src)[:40]))
                 elif g0[0] == "arg":
